@@ -40,7 +40,8 @@ def xml_text():
 
 def coord():
     from hypothesis import strategies as st
-    return st.one_of(st.integers(-50, 3000).map(float), st.integers(-100, 6000).map(lambda k: k / 2.0),
+    near_half = st.tuples(st.integers(100, 9000), st.sampled_from([1e-5, -1e-5, 4e-5, -4e-5, 2e-6, -2e-6])).map(lambda t: t[0] + 0.5 + t[1])
+    return st.one_of(st.integers(-50, 3000).map(float), st.integers(-100, 6000).map(lambda k: k / 2.0), near_half,
                      st.floats(-1e4, 1e4, allow_nan=False, allow_infinity=False, width=32).map(float))
 
 
